@@ -81,7 +81,8 @@ def sizePreamble (len : Nat) (ext : Bool) (lbP ubP : Option Int) : Res (Bits × 
 def fragLoop (unit : Nat) (sizeRange : Int) (lb : Nat) : Nat → Nat → Nat → Bits → Res Bits
   | 0, _, _, _ => hang
   | fuel + 1, pos, rawLength, payload =>
-    let part := if rawLength > 65536 then 65536 else if rawLength ≥ 16384 then rawLength &&& 0xc000 else rawLength
+    -- `>= 65536` and the continuation after a 16K-multiple fragment: the repair of F36 (X.691 11.9.3.8)
+    let part := if rawLength ≥ 65536 then 65536 else if rawLength ≥ 16384 then rawLength &&& 0xc000 else rawLength
     match appendLength pos sizeRange part with
     | .error e => .error e
     | .ok lenBits =>
@@ -93,8 +94,9 @@ def fragLoop (unit : Nat) (sizeRange : Int) (lb : Nat) : Nat → Nat → Nat →
         let nbits := partLen * unit
         let chunk := payload.take nbits
         let rest := rawLength - part
-        if rest > 0 then
-          -- octets of this fragment are whole; continue with the next fragment
+        if rest > 0 ∨ part ≥ 16384 then
+          -- octets of this fragment are whole; continue with the next fragment, or after a fragment (a multiple of
+          -- 16K) with nothing left, with the final length 0 (11.9.3.8.3)
           match fragLoop unit sizeRange lb fuel (pos1 + al.length + (chunk.length + 7) / 8 * 8) rest (payload.drop nbits) with
           | .error e => .error e
           | .ok more => .ok (lenBits ++ al ++ chunk ++ alignBits (pos1 + al.length + chunk.length) ++ more)
